@@ -294,6 +294,15 @@ func (ex *Exec) loadCellAt(p Pointer) Value {
 	if p.off.IsConst() {
 		return ex.readCell(p.obj, int(p.off.val))
 	}
+	// symbolic offsets are kept symbolic only over integer cells; over pointers, slices,
+	// interfaces ... the feasible offsets are enumerated (bounded by the object size)
+	lo := int(p.lo)
+	if lo < 0 || lo >= p.obj.ncells {
+		lo = 0
+	}
+	if _, _, isInt := intWidth(p.obj.cellType(lo)); !isInt {
+		return ex.readCell(p.obj, int(ex.concretize(p.off)))
+	}
 	return ex.symRead(p.obj, p.off, int(p.lo), int(p.hi), int(p.st))
 }
 
@@ -351,7 +360,8 @@ func (ex *Exec) store(p Pointer, t types.Type, v Value) {
 		}
 		tv, ok := v.(*Term)
 		if !ok {
-			panic(unsupported("symbolic-offset store of non-integer"))
+			ex.writeCell(p.obj, int(ex.concretize(p.off)), v)
+			return
 		}
 		ex.symWriteCell(p.obj, p.off, tv)
 		return
